@@ -682,6 +682,10 @@ func (g *Gen) Next(run *Run) Op {
 		if r.Chance(1, 8) {
 			o.S = cli()
 		}
+		// key rotation: re-register an existing assigner with another of its key pairs (and back)
+		if pa := s.Ass[o.C]; pa != nil && r.Chance(1, 2) {
+			o.P = r.Intn(3)
+		}
 		return o
 
 	case "freealloc":
@@ -713,6 +717,13 @@ func (g *Gen) Next(run *Run) Op {
 			F: pickF(r, []float64{1, 0.5, 2, 5, 2.5, 0.3, 1, 2, 3.00000000001, 0.0000000001, 10, 101, 1e9, -1})}
 		if r.Chance(1, 5) && g.NNonce > 1 {
 			o.N = r.Pick64([]int64{1, g.NNonce - 1})
+		}
+		// signed with the registered key, or (1 in 4) with another key pair of the assigner: retired or never registered
+		if pa := s.Ass[refAssigner+ab]; pa != nil && pa.Key >= 0 {
+			o.P = pa.Key
+		}
+		if r.Chance(1, 4) {
+			o.P = r.Intn(3)
 		}
 		switch r.Intn(15) {
 		case 0:
@@ -795,6 +806,39 @@ func (g *Gen) Script(run *Run) *Op {
 		return &Op{K: "freealloc", Dt: 5, S: refClient + r.Intn(h.NCli), A: g.NLabel, B: 0, N: nonce, Bl: bl, F: pickF(r, []float64{1, 0.5, 2})}
 	}
 	switch g.script {
+	case "assigner-key-rotation":
+		// markers redeemed, the owner registers a new key for the assigner (and later the old one again);
+		// markers signed with the current, the retired and a never registered key in between
+		signed := func(nonce int64, keyNum int) *Op {
+			o := freeOp(nonce)
+			o.P = keyNum
+			return o
+		}
+		reg := func(keyNum int) *Op {
+			return &Op{K: "addassigner", Dt: 5, S: refOwner, C: refAssigner, P: keyNum, F: 100, G: 1000}
+		}
+		switch g.step {
+		case 0:
+			return reg(0)
+		case 1:
+			return signed(11, 0)
+		case 2:
+			return reg(1)
+		case 3:
+			return signed(12, 0) // retired key
+		case 4:
+			return signed(13, 1) // current key
+		case 5:
+			return signed(14, 2) // never registered
+		case 6:
+			return reg(r.Intn(3))
+		case 7, 8, 9:
+			return signed(int64(15+g.step), r.Intn(3))
+		case 10:
+			o := signed(30, 0)
+			o.X |= xBadSig
+			return o
+		}
 	case "time-unit-change-close":
 		// the network time unit is changed (update_settings) while an allocation with settled challenges is open, then it is closed
 		switch {
